@@ -484,4 +484,19 @@ theorem eq_is_list_eq (a b : Rep) (ha : a.wf) (hb : b.wf) (fuel : Nat) :
 example : eqB .count (.array [.int 0]) 10 = .bool false ∧
     eqB (.array [.int 0, .int 1]) (.range 0 3 1) 10 = .bool false := ⟨rfl, rfl⟩
 
+/-- Associativity at the level of denotations: however the `+` of a concatenation is parenthesised (left-deep,
+right-deep, balanced, (k)+(n-k), …: `CTree`), and whichever arm of `chain` each `+` takes (including
+Chain + Chain with any number of parts on either side, and empty operands returning the other operand), if no
+`+` is an error value the result is well formed and denotes the concatenation of the leaves' lists in order. -/
+theorem chain_assoc_den (t : CTree) (hw : ∀ r ∈ t.leaves, r.wf) (r : Rep) (h : t.eval = some r) :
+    r.wf ∧ SemEq (den r) (Sem.concat (denList t.leaves)) := ctree_den t hw r h
+
+/-- (a + b) + (c + d + e): both operands are chains, the right one has three parts -/
+example :
+    (CTree.node (.node (.leaf (.array [.int (-1)])) (.leaf (.array [.int 0])))
+      (.node (.node (.leaf (.range 1 2 1)) (.leaf (.range 2 4 1))) (.leaf (.array [.int 4])))).eval =
+      some (.chain [.array [.int (-1)], .array [.int 0], .range 1 2 1, .range 2 4 1, .array [.int 4]] [1, 2, 3, 5]) ∧
+    (Rep.chain [.array [.int (-1)], .array [.int 0], .range 1 2 1, .range 2 4 1, .array [.int 4]] [1, 2, 3, 5]).len
+      = .fin 6 := ⟨rfl, rfl⟩
+
 end XrayModel.C15
